@@ -86,6 +86,9 @@ pub trait Prop: 'static {
     const HANG_IS_VIOLATION: bool = false;
     /// per-part watchdog in seconds (0 = the global default, OXV_WATCHDOG_S or 180)
     const WATCHDOG_S: u64 = 0;
+    /// proptest shrink budget (every shrink step re-runs the oracle: keep it small for parts
+    /// whose single case costs seconds)
+    const MAX_SHRINK_ITERS: u32 = 400;
     const CHOICE_LEN: usize = 256;
     fn random_cases(tier: Tier) -> usize;
     fn gen(ch: &mut Ch, tier: Tier) -> Self::Case;
@@ -442,7 +445,7 @@ pub fn run_part<P: Prop>(opts: &Opts) -> PartReport {
                             cases: quota as u32,
                             failure_persistence: None,
                             rng_seed: RngSeed::Fixed(wseed),
-                            max_shrink_iters: 600,
+                            max_shrink_iters: P::MAX_SHRINK_ITERS,
                             max_global_rejects: u32::MAX,
                             ..Config::default()
                         };
